@@ -308,7 +308,31 @@ def check_handle_yield(ck):
             done = None
         return (regs, ret, done)
 
-    normal, _ = exit_states(cfg, (0, None, None), tr2, edge_transfer=edge, follow_exc=True)
+    # a single exit through a result variable (`ready = True ... ready = False ... return ready`): the booleans bound to
+    # plain locals are carried along each path and substituted at the return
+    def tr3(nd, v):
+        inner_, rv = v
+        inner_ = tr2(nd, inner_)
+        if nd.kind == "stmt" and isinstance(nd.ast, (ast.Assign, ast.AnnAssign)) and getattr(nd.ast, "value", None) is not None:
+            tgs = nd.ast.targets if isinstance(nd.ast, ast.Assign) else [nd.ast.target]
+            d = dict(rv)
+            for t_ in tgs:
+                if isinstance(t_, ast.Name):
+                    if isinstance(nd.ast.value, ast.Constant) and isinstance(nd.ast.value.value, bool):
+                        d[t_.id] = nd.ast.value.value
+                    else:
+                        d.pop(t_.id, None)
+            rv = frozenset(d.items())
+        if nd.kind == "stmt" and isinstance(nd.ast, ast.Return) and isinstance(nd.ast.value, ast.Name):
+            inner_ = (inner_[0], dict(rv).get(nd.ast.value.id, "?"), inner_[2])
+        return (inner_, rv)
+
+    def edge3(nd, kind, v):
+        inner_ = edge(nd, kind, v[0])
+        return None if inner_ is None else (inner_, v[1])
+
+    normal, _ = exit_states(cfg, ((0, None, None), frozenset()), tr3, edge_transfer=edge3, follow_exc=True)
+    normal = sorted({(f_, v_[0]) for f_, v_ in normal}, key=repr)
     ck.floor("C37.handle-yield", len(normal), 3, "normal exit states of handle_yield")
     for _f, (regs, ret, done) in normal:
         if ret is True:
@@ -317,7 +341,7 @@ def check_handle_yield(ck):
         elif ret is False:
             ck.ob("C37.handle-yield", hy, hy.node, regs == 1, "handle_yield says 'suspend' only after registering exactly one wake-up (registrations=%d)" % regs, construct="exit False registrations=%d" % regs)
         else:
-            ck.ob("C37.handle-yield", hy, hy.node, False, "handle_yield returns a literal True/False", construct="exit returns=%s" % ret)
+            raise AnalysisError("%s: a return value of handle_yield cannot be reduced to True/False" % hy.site())
     # done() of the yielded future cannot change inside this synchronous function except by rebinding self.future
     from ..x_sync import stable_facts
     facts = stable_facts(cfg, lambda t: t == donef)
@@ -432,7 +456,7 @@ def check_convert(ck):
 
 def run(ck):
     ck._orig_repo = getattr(ck, "_orig_repo", None) or ck.repo
-    ck.repo = normalized(ck.repo, NORM_MODULES)  # alias / named-boolean / temporary / setter-helper normalisation (vt/x_syncnorm.py)
+    ck.repo = normalized(ck.repo, NORM_MODULES, only=('tornado/gen.py',))  # alias / named-boolean / temporary / setter-helper normalisation (vt/x_syncnorm.py)
     ck.rule("C37.ctx-run", "user code (func, next, gen.send/throw, Runner.run, handle_yield at construction) is entered only through ctx_run = copy_context().run")
     ck.rule("C37.outcome", "every advance is covered by a StopIteration/Return handler producing the result from the exception value and by an Exception handler storing the error in the result future")
     ck.rule("C37.wrapper-ts", "the decorator wrapper returns its fresh result future on every path, settled exactly once or handed to exactly one Runner")
